@@ -185,6 +185,58 @@ pub fn judge_case(c: &Case) -> Obs {
             );
         }
     }
+    // ... and when the script does resume execution: the reference debugger says how many input
+    // bytes the program consumes while each command runs, so the stream can be laid out the way a
+    // user would type it - a command line, then the input the program asks for while that command
+    // runs, then the next command line ... then `quit` and the rest of the input. Debugger and
+    // program take turns on the stream; neither may read ahead of its turn.
+    if obs.fail.is_none() && c.explicit_quit && resumes > 0 && rr.consumed > 0 && !script.contains('\0') && !input.contains(&b'\n') && !input.contains(&b';') {
+        let model = run_model(&p, &cmds, &input, budget);
+        if model.ambiguous.is_none() && model.kept == cmds.len() {
+            let mut stream: Vec<u8> = Vec::new();
+            let mut pos = 0usize;
+            let mut turns = 0;
+            for k in 0..cmds.len() {
+                let m = run_model(&p, &cmds[..=k], &input, budget);
+                if m.ambiguous.is_some() || m.kept != k + 1 {
+                    return obs;
+                }
+                stream.extend(cmds[k].text(aliases[k]).as_bytes());
+                stream.push(b'\n');
+                let now = m.dbg.io.pos.min(input.len());
+                if now > pos {
+                    turns += 1;
+                }
+                stream.extend(&input[pos..now]);
+                pos = now;
+            }
+            stream.extend(b"quit\n");
+            stream.extend(&input[pos..]);
+            if turns >= 1 {
+                obs.label("script-and-program-input-interleaved-on-stdin");
+                let s3 = lacebox::run_session(
+                    Load::Source { text: p.text.clone(), debugger: Some(None) },
+                    RunSpec { stack: p.built.stack, minimal, fuel, input: stream.clone() },
+                );
+                let Some(d3) = outcome_of(&mut obs, "C09", &s3, &shown) else { return obs };
+                if d3.stop != po.stop || d3.stdout != po.stdout || d3.fin != po.fin {
+                    obs.set_fail(
+                        "C09:interleaved-stdin-session-differs",
+                        format!(
+                            "commands and program input taking turns on standard input {:?}: {:?}, output {:?}; plain run: {:?}, output {:?}; final machines {}\n{shown}\n--- debugger output ---\n{}",
+                            String::from_utf8_lossy(&stream),
+                            d3.stop,
+                            String::from_utf8_lossy(&d3.stdout),
+                            po.stop,
+                            String::from_utf8_lossy(&po.stdout),
+                            if d3.fin == po.fin { "equal" } else { "differ" },
+                            clip(&String::from_utf8_lossy(&d3.stderr))
+                        ),
+                    );
+                }
+            }
+        }
+    }
     obs
 }
 
@@ -256,7 +308,7 @@ impl Prop for C09 {
     fn rule(&self) -> &'static str {
         "ProgGen programs and (1 in 6) arbitrary word images that terminate under RefVM (all endings incl. error exits and jumps to 0xFFFF, self-modifying code, .break directives, input-reading programs) x scripts of 0-13 commands over {step, step into k, step out, continue, break add/remove/list, print, registers, assembly, echo, help} with generated valid and invalid arguments, ended by `quit` or by end of input. \
          Oracle: program output, exit status, input consumption, executed-instruction count and the full final snapshot (registers, PC, CC, all memory) of the debugged run equal those of the plain run of the same source (both by lace; the plain run is independently checked against RefVM in C03). \
-         When the script resumes nothing before `quit` and the program reads input, the session is repeated with the script on standard input followed by the program's input (shared stream): it must again equal the plain run, byte for byte of consumed input. A sample of the same pairs also runs through the real binary (`lace debug --minimal --command <script>` vs `lace run --minimal`: stdout and exit status byte-identical). Non-trivial: the script resumes execution at least twice and the debugger pauses at least once (breakpoint, HALT, step complete, bounds). Distinct = hash(source, script, input)."
+         When the script resumes nothing before `quit` and the program reads input, the session is repeated with the script on standard input followed by the program's input (shared stream): it must again equal the plain run, byte for byte of consumed input. When the script does resume execution, the stream is laid out in turns - a command line, then the input bytes the reference debugger says the program consumes while that command runs, ..., `quit`, the rest of the input - and the session must again equal the plain run (neither the debugger nor the program may read ahead of its turn). A sample of the same pairs also runs through the real binary (`lace debug --minimal --command <script>` vs `lace run --minimal`: stdout and exit status byte-identical). Non-trivial: the script resumes execution at least twice and the debugger pauses at least once (breakpoint, HALT, step complete, bounds). Distinct = hash(source, script, input)."
     }
     fn assumptions(&self) -> Vec<String> {
         vec![
